@@ -458,8 +458,9 @@ class Component(CaselessDict):
                     try:
                         tzp.cache_timezone_component(component)
                     except (AssertionError, AttributeError, IndexError,
-                            KeyError, TypeError) as e:
-                        # the definition is incomplete or malformed
+                            KeyError, OverflowError, TypeError) as e:
+                        # the definition is incomplete, malformed or its
+                        # transitions are outside the representable years
                         raise ValueError(
                             f'Invalid VTIMEZONE: {type(e).__name__}: {e}'
                         ) from e
